@@ -137,3 +137,18 @@ package slip
 //@   on-store Users not-yet-used: forall j :: (0 <= j && j < old(len(obj.Uses))) ==> old(obj.Uses[j]).Name != pkg.Name
 //@   on-store Uses not-yet-used: forall j :: (0 <= j && j < old(len(obj.Uses))) ==> old(obj.Uses[j]).Name != pkg.Name
 //@   loop rangeindex+1<len(obj.Uses): invariant scanned: forall j :: (0 <= j && j <= rangeindex) ==> old(obj.Uses[j]).Name != pkg.Name
+
+// ---------------------------------------------------------------------------
+// C11: whoppers. continue-whopper runs the next wrapper in combination order
+// and reaches the daemons only when no wrapper is left.
+//@ func slip.(*WhopLoc).Continue
+//@   property C11 C10
+//@   requires sane-index: 0 - 1 <= wl.Current && wl.Current < 4611686018427387904
+//@   on-call Call next-wrapper: (forall j :: (old(wl.Current) < j && j < wl.Current) ==> wl.Method.Combinations[j].Wrap == nil) && wl.Method.Combinations[wl.Current].Wrap != nil
+//@   on-call InnerCall no-wrapper-left: forall j :: (old(wl.Current) < j && j < len(wl.Method.Combinations)) ==> wl.Method.Combinations[j].Wrap == nil
+//@   loop wl.Current: invariant scanned: old(wl.Current) < wl.Current && wl.Method == old(wl.Method) && (forall j :: (old(wl.Current) < j && j < wl.Current) ==> wl.Method.Combinations[j].Wrap == nil)
+
+//@ func slip.(*Method).HasMethodFromClass
+//@   property C11
+//@   ensures absent: !result0 ==> (forall j :: (0 <= j && j < len(m.Combinations) && m.Combinations[j].From != nil) ==> Name(m.Combinations[j].From) != from)
+//@   loop rangeindex: invariant scanned: forall j :: (0 <= j && j <= rangeindex && m.Combinations[j].From != nil) ==> Name(m.Combinations[j].From) != from
